@@ -25,7 +25,7 @@ var (
 	locLay = log.JSONLayout{BaseLayout: log.BaseLayout{FileLineLength: 100000}}
 )
 
-func init() { log.RegisterPlugin[LocAppender]("Loc", log.PluginTypeAppender) }
+func init()                         { log.RegisterPlugin[LocAppender]("Loc", log.PluginTypeAppender) }
 func (a *LocAppender) Start() error { return nil }
 func (a *LocAppender) Stop()        {}
 func (a *LocAppender) Write([]byte) {}
@@ -50,14 +50,19 @@ func (s *site) mark() { _, f, l, _ := runtime.Caller(1); s.want = fmt.Sprintf("%
 
 type entryFn func(s *site)
 
+// lazyMsg keeps the Trace/Debug entries on one source line (mark and the log call must share a line; gofmt splits nested literals)
+func lazyMsg(s *site) func() []log.Field {
+	return func() []log.Field { return []log.Field{log.Msg(s.id)} }
+}
+
 // the 15 entry points, each called on the same line as mark()
 var c11Entries = []struct {
 	name string
 	call entryFn
 }{
-	{"Trace", func(s *site) { s.mark(); log.Trace(s.ctx, s.tag, func() []log.Field { return []log.Field{log.Msg(s.id)} }) }},
+	{"Trace", func(s *site) { s.mark(); log.Trace(s.ctx, s.tag, lazyMsg(s)) }},
 	{"Tracef", func(s *site) { s.mark(); log.Tracef(s.ctx, s.tag, "%s", s.id) }},
-	{"Debug", func(s *site) { s.mark(); log.Debug(s.ctx, s.tag, func() []log.Field { return []log.Field{log.Msg(s.id)} }) }},
+	{"Debug", func(s *site) { s.mark(); log.Debug(s.ctx, s.tag, lazyMsg(s)) }},
 	{"Debugf", func(s *site) { s.mark(); log.Debugf(s.ctx, s.tag, "%s", s.id) }},
 	{"Info", func(s *site) { s.mark(); log.Info(s.ctx, s.tag, log.Msg(s.id)) }},
 	{"Infof", func(s *site) { s.mark(); log.Infof(s.ctx, s.tag, "%s", s.id) }},
@@ -73,11 +78,11 @@ var c11Entries = []struct {
 }
 
 // call shapes
-func inlinable(s *site)            { s.mark(); log.Infof(s.ctx, s.tag, "%s", s.id) }
-func generic[T any](s *site, _ T)  { s.mark(); log.Info(s.ctx, s.tag, log.Msg(s.id)) }
-func wrapSkip2(s *site)            { log.Record(s.ctx, log.WarnLevel, s.tag, 2, log.Msg(s.id)) }
-func wrapSkip3Inner(s *site)       { log.Record(s.ctx, log.ErrorLevel, s.tag, 3, log.Msg(s.id)) }
-func wrapSkip3(s *site)            { wrapSkip3Inner(s) }
+func inlinable(s *site)           { s.mark(); log.Infof(s.ctx, s.tag, "%s", s.id) }
+func generic[T any](s *site, _ T) { s.mark(); log.Info(s.ctx, s.tag, log.Msg(s.id)) }
+func wrapSkip2(s *site)           { log.Record(s.ctx, log.WarnLevel, s.tag, 2, log.Msg(s.id)) }
+func wrapSkip3Inner(s *site)      { log.Record(s.ctx, log.ErrorLevel, s.tag, 3, log.Msg(s.id)) }
+func wrapSkip3(s *site)           { wrapSkip3Inner(s) }
 
 //go:noinline
 func notInlined(s *site) { s.mark(); log.Errorf(s.ctx, s.tag, "%s", s.id) }
@@ -162,5 +167,71 @@ func runC11(cases []string, out *bufio.Writer, _ []string) {
 		log.Destroy()
 		fmt.Fprintln(out, strings.Join(toks, " "))
 	}
-	guard(func() { log.Refresh(map[string]string{"appender.a.type": "Loc", "enableCaller": "true", "fastCaller": "false"}); log.Destroy() })
+	guard(func() {
+		log.Refresh(map[string]string{"appender.a.type": "Loc", "enableCaller": "true", "fastCaller": "false"})
+		log.Destroy()
+	})
+}
+
+func init() { families["c11c"] = runC11Concurrent }
+
+// Concurrent callers. Case: "<fastCaller 0|1> <goroutines> <iterations>": every goroutine logs from its own statements (the 15 entry points,
+// round robin) after a common start barrier. Observation: "<calls> <wrong> <first wrong sites>"
+func runC11Concurrent(cases []string, out *bufio.Writer, _ []string) {
+	tag := log.RegisterTag("_c11_probe")
+	ctx := context.Background()
+	for _, line := range cases {
+		f := strings.Fields(line)
+		var ng, iters int
+		fmt.Sscan(f[1], &ng)
+		fmt.Sscan(f[2], &iters)
+		cfg := map[string]string{"appender.a.type": "Loc", "logger.lg.type": "Logger", "logger.lg.tags": "_c11_*", "logger.lg.level": "trace",
+			"logger.lg.appenderRef.ref": "a", "enableCaller": "true", "fastCaller": map[string]string{"0": "false", "1": "true"}[f[0]]}
+		if err := log.Refresh(cfg); err != nil {
+			fmt.Fprintln(out, "err")
+			continue
+		}
+		locMu.Lock()
+		locGot = map[string]string{}
+		locMu.Unlock()
+		sites := make([][]*site, ng)
+		start := make(chan struct{})
+		var wg sync.WaitGroup
+		for g := 0; g < ng; g++ {
+			wg.Add(1)
+			go func(g int) {
+				defer wg.Done()
+				<-start
+				for i := 0; i < iters; i++ {
+					s := &site{ctx: ctx, tag: tag, id: fmt.Sprintf("c%d.%d", g, i)}
+					c11Entries[(g+i/64)%len(c11Entries)].call(s)
+					sites[g] = append(sites[g], s)
+				}
+			}(g)
+		}
+		close(start)
+		wg.Wait()
+		log.Destroy()
+		total, wrong := 0, 0
+		var first []string
+		locMu.Lock()
+		for g := range sites {
+			for _, s := range sites[g] {
+				total++
+				if got := locGot[s.id]; got != s.want {
+					wrong++
+					if len(first) < 3 {
+						first = append(first, fmt.Sprintf("%s:got[%s]want[%s]", s.id, got, s.want))
+					}
+				}
+			}
+		}
+		locGot = map[string]string{}
+		locMu.Unlock()
+		fmt.Fprintf(out, "%d %d %s\n", total, wrong, strings.Join(first, ","))
+	}
+	guard(func() {
+		log.Refresh(map[string]string{"appender.a.type": "Loc", "enableCaller": "true", "fastCaller": "false"})
+		log.Destroy()
+	})
 }
